@@ -1063,6 +1063,8 @@ static void run_socket_frag(vf::Ctx& c, const Seq& q, bool nontrivial, uint64_t 
 	std::vector<Piece> plan;
 	frag_plan(c.rng, q, style, plan);
 	c.count((std::string("frag.style.") + FRAG_TAG[style]).c_str());
+	// one case in 131 has a silent peer for 2.3 s in the middle of the stream: the reader waits, it does not give a value up
+	if (c.idx % 131 == 9 && plan.size() >= 2) { plan[c.rng.below((uint32_t)plan.size() - 1)].pause_us = 2300000; c.count("frag.long_silence_of_2.3s"); }
 	int fd[2];
 	if (socketpair(AF_UNIX, SOCK_STREAM, 0, fd) != 0) { c.inconclusive("socketpair"); return; }
 	c.op(vf::fmt("reference bytes (%d) sent through the raw descriptor by a thread in %d pieces (%s) with pauses; Socket(fd) >> on the peer", (int)q.ref.size(),
